@@ -1,1 +1,134 @@
-//! (filled in below)
+//! C06 units: (a) the ziggurat table invariants, a closed finite obligation set checked on the concrete constants;
+//! (b) the step contract of `utils::ziggurat` for one arbitrary iteration (first iteration of the outer loop, first
+//! iteration of the normal tail loop), for every RNG word.
+use super::lc;
+use super::rd;
+use super::rngs::WordsRng;
+use crate::ziggurat_tables::*;
+use rd::Distribution;
+
+fn rel_close(a: f64, b: f64, rel: f64) -> bool { let d = if a > b { a - b } else { b - a }; d <= rel * (if b < 0.0 { -b } else { b }) }
+fn abs_close(a: f64, b: f64, tol: f64) -> bool { let d = if a > b { a - b } else { b - a }; d <= tol }
+
+/// enclosure of the normal tail area  int_R^inf exp(-x^2/2) dx  for the pinned R = 3.654152885361008796
+/// = sqrt(pi/2) * erfc(R/sqrt(2)) = 3.2339576466332126e-4 (computed offline with 40-digit arithmetic, mpmath);
+/// TRUSTED constant, tied to the table by the obligation X[1] == R.
+const NORM_TAIL_AREA: f64 = 3.2339576466332126e-4;
+
+macro_rules! table_unit {
+    ($name:ident, $X:ident, $F:ident, $R:ident, $pdf:expr, $lo:expr, $hi:expr, $base_check:expr) => {
+        /// structural + defining equations for table entries [$lo, $hi): end points, X[1] = R, strict monotonicity,
+        /// F[i] = pdf(X[i]) to 1e-14 (real libm exp on concrete data), equal areas to 1e-8 relative.
+        #[kani::proof]
+        #[kani::unwind(260)]
+        fn $name() {
+            let pdf: fn(f64) -> f64 = $pdf;
+            let v = $X[0] * $F[1];                    // area of every layer (base strip + tail has the same area)
+            kani::assert($X[256] == 0.0, "X[256] == 0");
+            kani::assert($F[256] == 1.0, "F[256] == 1");
+            kani::assert($X[1] == $R, "X[1] == R");
+            assert!(v > 0.0);
+            let mut i = $lo;
+            while i < $hi {
+                kani::assert($X[i] > $X[i + 1], "X strictly decreasing");
+                kani::assert($F[i] < $F[i + 1], "F strictly increasing");
+                kani::assert(abs_close($F[i], pdf($X[i]), 1e-14), "F[i] == pdf(X[i]) to 1e-14");
+                if i >= 1 {
+                    kani::assert(rel_close($X[i] * ($F[i + 1] - $F[i]), v, 1e-8), "layer i has area v to 1e-8 relative");
+                }
+                i += 1;
+            }
+            let base: fn(f64) -> bool = $base_check;
+            kani::assert(base(v), "base strip + tail == v");
+        }
+    };
+}
+fn norm_pdf(x: f64) -> f64 { <f64 as rd::num_traits::Float>::exp(-x * x / 2.0) }   // num-traits -> libm::exp (the real libm; concrete argument)
+fn exp_pdf(x: f64) -> f64 { <f64 as rd::num_traits::Float>::exp(-x) }
+// NORM: base strip R*F[1] plus the tail area equals v;  EXP: tail area is exp(-R) = F[1], so X[0] = R + 1
+table_unit!(c06_norm_table_a, ZIG_NORM_X, ZIG_NORM_F, ZIG_NORM_R, norm_pdf, 0, 64, |v| rel_close(ZIG_NORM_R * ZIG_NORM_F[1] + NORM_TAIL_AREA, v, 1e-8));
+table_unit!(c06_norm_table_b, ZIG_NORM_X, ZIG_NORM_F, ZIG_NORM_R, norm_pdf, 64, 128, |v| v > 0.0);
+table_unit!(c06_norm_table_c, ZIG_NORM_X, ZIG_NORM_F, ZIG_NORM_R, norm_pdf, 128, 192, |v| v > 0.0);
+table_unit!(c06_norm_table_d, ZIG_NORM_X, ZIG_NORM_F, ZIG_NORM_R, norm_pdf, 192, 256, |v| v > 0.0);
+table_unit!(c06_exp_table_a, ZIG_EXP_X, ZIG_EXP_F, ZIG_EXP_R, exp_pdf, 0, 64, |_v| abs_close(ZIG_EXP_X[0], ZIG_EXP_R + 1.0, 1e-8));
+table_unit!(c06_exp_table_b, ZIG_EXP_X, ZIG_EXP_F, ZIG_EXP_R, exp_pdf, 64, 128, |v| v > 0.0);
+table_unit!(c06_exp_table_c, ZIG_EXP_X, ZIG_EXP_F, ZIG_EXP_R, exp_pdf, 128, 192, |v| v > 0.0);
+table_unit!(c06_exp_table_d, ZIG_EXP_X, ZIG_EXP_F, ZIG_EXP_R, exp_pdf, 192, 256, |v| v > 0.0);
+
+/// One arbitrary ziggurat step of StandardNormal (body of the outer loop run once, tail loop run once): for every
+/// first word and every following word the returned value is not NaN, carries the sign of u, lies in the selected
+/// layer's rectangle (|x| <= X[i]) for i > 0, and for i = 0 is either inside the base strip or beyond R (tail).
+#[kani::proof]
+#[kani::unwind(1)]
+#[kani::stub(f64::exp, lc::exp)]
+#[kani::stub(f64::ln, lc::log)]
+fn c06_normal_step() {
+    let mut rng = WordsRng::<4>::any();
+    let w0 = rng.w[0];
+    let x: f64 = rd::StandardNormal.sample(&mut rng);
+    let i = (w0 & 0xff) as usize;
+    let neg = (w0 >> 63) == 0;           // u = into_float_with_exponent(1)(bits >> 12) - 3.0 in [-1, 1): sign = !top bit
+    let ax = if x < 0.0 { -x } else { x };
+    // (with the tail `while` loop cut at its head this unit covers the rectangle and wedge returns; the tail
+    //  branch has its own units c06_normal_tail_pos / _neg)
+    kani::cover!(i > 0 && rng.i == 2, "wedge branch returns");
+    kani::cover!(rng.i == 1, "rectangle branch returns");
+    kani::assert(!x.is_nan(), "StandardNormal step returns NaN");
+    kani::assert(ax <= ZIG_NORM_X[0] || (i == 0 && ax >= ZIG_NORM_R), "value in the base strip or in the tail");
+    if i > 0 { kani::assert(ax <= ZIG_NORM_X[i], "value inside layer i"); }
+    if x != 0.0 { kani::assert((x < 0.0) == neg, "sign of the value is the sign of u"); }
+}
+
+macro_rules! normal_tail {
+    ($name:ident, $w0:expr, $neg:expr) => {
+        /// Normal tail branch (layer 0, |u| beyond the base strip) for EVERY pair of tail words, one tail iteration:
+        /// the result is not NaN, lies beyond R and carries the sign of u.
+        #[kani::proof]
+        #[kani::unwind(2)]
+        #[kani::stub(f64::exp, lc::exp)]
+        #[kani::stub(f64::ln, lc::log)]
+        fn $name() {
+            let t: [u64; 2] = kani::any();
+            let mut rng = WordsRng::<3>::of([$w0, t[0], t[1]]);
+            let x: f64 = rd::StandardNormal.sample(&mut rng);
+            kani::cover!(rng.i == 3, "tail returns after one tail iteration");
+            kani::assert(!x.is_nan(), "normal tail returns NaN");
+            if $neg { kani::assert(x <= -ZIG_NORM_R, "negative tail value is <= -R"); } else { kani::assert(x >= ZIG_NORM_R, "positive tail value is >= R"); }
+        }
+    };
+}
+// u = into_float_with_exponent(1)(bits >> 12) - 3.0: all-ones mantissa -> u just below +1; zero mantissa -> u = -1; low byte 0 -> layer 0
+normal_tail!(c06_normal_tail_pos, 0xffff_ffff_ffff_f000u64, false);
+normal_tail!(c06_normal_tail_neg, 0x0000_0000_0000_0000u64, true);
+
+/// One arbitrary ziggurat step of Exp1: not NaN, > 0 (the support is open at 0; Exp(0) = +inf and Gamma(1, inf) rely on it), inside layer i for i > 0, and for i = 0 in the base strip or >= R.
+/// KNOWN FINDING excluded: the tail branch returns +inf when its uniform draw is exactly 0 (R - ln(0)); pinned below.
+#[kani::proof]
+#[kani::unwind(1)]
+#[kani::stub(f64::exp, lc::exp)]
+#[kani::stub(f64::ln, lc::log)]
+fn c06_exp_step() {
+    let mut rng = WordsRng::<4>::any();
+    let w0 = rng.w[0];
+    let x: f64 = rd::Exp1.sample(&mut rng);
+    let i = (w0 & 0xff) as usize;
+    kani::cover!(i == 0 && x >= ZIG_EXP_R, "tail branch returns");
+    kani::cover!(i > 0, "rectangle/wedge branch returns");
+    kani::assert(!x.is_nan(), "Exp1 step returns NaN");
+    kani::assert(x > 0.0, "Exp1 step returns a value that is not strictly positive");
+    kani::assert(x <= ZIG_EXP_X[0] || (i == 0 && x >= ZIG_EXP_R), "value in the base strip or in the tail");
+    if i > 0 { kani::assert(x <= ZIG_EXP_X[i], "value inside layer i"); }
+    if !(i == 0 && (rng.w[1] >> 11) == 0) { kani::assert(x.is_finite(), "Exp1 step returns an infinite value"); }
+}
+
+/// KNOWN FINDING: Exp1 returns +inf when the tail branch draws a uniform of exactly 0:  R - ln(0)
+#[kani::proof]
+#[kani::unwind(1)]
+#[kani::stub(f64::exp, lc::exp)]
+#[kani::stub(f64::ln, lc::log)]
+fn kf_exp1_tail_inf() {
+    // word 0: layer 0 and u close to 1 (falls through the rectangle test); word 1: uniform draw 0
+    let mut rng = WordsRng::<4>::of([0xffff_ffff_ffff_ff00, 0, 0, 0]);
+    let x: f64 = rd::Exp1.sample(&mut rng);
+    kani::assert(x.is_finite(), "Exp1 step returns an infinite value");
+}
